@@ -157,6 +157,17 @@ class Suspend:
         return None
 
 
+class AwaitableValue:
+    """A non-coroutine awaitable (like a Future): suspends once, then yields its value."""
+
+    def __init__(self, value: Any) -> None:
+        self.value = value
+
+    def __await__(self):  # type: ignore
+        yield None
+        return self.value
+
+
 def outcome_of(fn: Callable[[], Any], catch: Tuple[type, ...]) -> Tuple[str, Any]:
     """Call fn; ('ret', value) or ('raise', exc).  Only the listed exception classes are caught."""
     try:
